@@ -124,6 +124,11 @@ def precision_jobs(ctx):
                     # timesteps in floating point: the rows are still
                     # stamped with the engine's clock
                     jobs.append(('P', prec, combo, sc, 1, 'timevar'))
+                    # the engine starts at a grid time t0 > 0: the first
+                    # step may be longer than t0 itself (t + (f - t) != f
+                    # in floating point when f > 2t)
+                    for t0 in ('0.3', '0.1'):
+                        jobs.append(('P', prec, combo, sc, 1, 't0:' + t0))
     return jobs
 
 
@@ -152,23 +157,24 @@ def precision_world(job):
             procs[pid]['update']['tv'] = '$ts'
             topo[pid]['tv'] = ('time',)
     sc = [(c[0], float(c[1])) + tuple(c[2:]) for c in script]
+    eng = {'global_time_precision': prec, 'emit_step': emit_step}
+    if len(job) > 5 and str(job[5]).startswith('t0:'):
+        eng['initial_global_time'] = float(job[5][3:])
     return {'processes': procs, 'topology': topo, 'script': sc,
-            'engine': {'global_time_precision': prec,
-                       'emit_step': emit_step},
-            'family': 'P', 'job': job}
+            'engine': eng, 'family': 'P', 'job': job}
 
 
-def exact_timeline(combo, script):
+def exact_timeline(combo, script, t0='0'):
     """Ideal timeline in exact decimal arithmetic (Fractions)."""
     out = {}
-    windows, s = [], Fraction(0)
+    windows, s = [], Fraction(t0)
     for c in script:
         e = s + Fraction(c[1])
         force = c[0] == 'update' or bool(c[2:] and c[2])
         windows.append((s, e, force))
         s = e
     for i, ts in enumerate(combo):
-        f, e, seq = Fraction(ts), Fraction(0), []
+        f, e, seq = Fraction(ts), Fraction(t0), []
         for (s, E, force) in windows:
             while True:
                 if e + f <= E:
@@ -210,7 +216,9 @@ def run_precision(job, acc):
                   f'clock {prev!r} -> {c["new"]!r}')
                 break
             prev = c['new']
-        exact, ends = exact_timeline(combo, script)
+        t0 = job[5][3:] if len(job) > 5 and str(job[5]).startswith(
+            't0:') else '0'
+        exact, ends = exact_timeline(combo, script, t0)
         by_exact = {}
         for i, ts in enumerate(combo):
             pid = f'p{i}'
@@ -247,7 +255,8 @@ def run_precision(job, acc):
         if len(set(keys)) != len(keys):
             V('C03.coincide', 'duplicate-row-key', f'row keys {keys}')
         if emit_step == 1:
-            want = sorted({round(float(e), prec) for e in by_exact} | {0})
+            want = sorted({round(float(e), prec) for e in by_exact} |
+                          {float(t0) if t0 != '0' else 0})
             if sorted(keys) != want:
                 V('C03.coincide', 'rows-differ-from-batches',
                   f'row keys {keys} expected {want}')
